@@ -27,6 +27,46 @@ type bindEntry struct {
 	Type string `json:"type"`
 }
 
+// Loops of the functions under contract (header text, in source order) and the functions their packages declared when
+// the contracts were written: kept in the same file under the pseudo-functions "$loops:<func>" and "$functions:<pkg>".
+func loopNodesOf(body *ast.BlockStmt) []ast.Node {
+	var out []ast.Node
+	if body == nil {
+		return nil
+	}
+	ast.Inspect(body, func(x ast.Node) bool {
+		switch x.(type) {
+		case *ast.ForStmt, *ast.RangeStmt:
+			out = append(out, x)
+		case *ast.FuncLit:
+			return false
+		}
+		return true
+	})
+	return out
+}
+
+func loopPrint(n ast.Node) string {
+	switch l := n.(type) {
+	case *ast.RangeStmt:
+		k, v := "_", "_"
+		if l.Key != nil {
+			k = exprText(l.Key)
+		}
+		if l.Value != nil {
+			v = exprText(l.Value)
+		}
+		return "range " + k + "," + v + " " + exprText(l.X)
+	case *ast.ForStmt:
+		c := ""
+		if l.Cond != nil {
+			c = exprText(l.Cond)
+		}
+		return fmt.Sprintf("for init=%v cond=%s post=%v", l.Init != nil, c, l.Post != nil)
+	}
+	return "?"
+}
+
 func (p *Program) localsOf(fi *FuncInfo) []bindEntry {
 	if fi == nil || fi.Decl == nil || fi.Pkg == nil || fi.Pkg.TypesInfo == nil {
 		return nil
@@ -81,7 +121,131 @@ func (p *Program) collectBindings(prop string, into map[string][]bindEntry) {
 			continue
 		}
 		into[ct.PkgPath+"."+ct.Key] = p.localsOf(fi)
+		var lp []bindEntry
+		for _, n := range loopNodesOf(fi.Decl.Body) {
+			lp = append(lp, bindEntry{loopPrint(n), "loop"})
+		}
+		if len(lp) > 0 {
+			into["$loops:"+ct.PkgPath+"."+ct.Key] = lp
+		}
+		fk := "$functions:" + ct.PkgPath
+		if _, done := into[fk]; !done {
+			var fs []bindEntry
+			for _, f := range p.funcs {
+				if f.Pkg != nil && f.Pkg.PkgPath == ct.PkgPath && f.Decl != nil {
+					keys := contractKeys(f.Obj)
+					fs = append(fs, bindEntry{keys[len(keys)-1], "func"})
+				}
+			}
+			sort.Slice(fs, func(i, j int) bool { return fs[i].Name < fs[j].Name })
+			into[fk] = fs
+		}
 	}
+}
+
+// applyLoopMoves: a function under contract has fewer loops than when its contract was written, every loop it still has
+// is one of the recorded ones (same header, same order), and the missing ones are exactly the loops of the NEW
+// contract-less helpers of its package that it now calls (in call order): the contract's `loop N` clauses follow the
+// loops to where they are now. Anything else is left alone.
+func (p *Program) applyLoopMoves(prop string, recorded map[string][]bindEntry) []string {
+	var notes []string
+	if recorded == nil {
+		return nil
+	}
+	for _, ct := range p.allCon {
+		if ct.Kind != "func" || !hasProp(ct.Props, prop) {
+			continue
+		}
+		base, ok := recorded["$loops:"+ct.PkgPath+"."+ct.Key]
+		if !ok {
+			continue
+		}
+		fi := p.findFunc(ct)
+		if fi == nil || fi.Decl == nil || fi.Decl.Body == nil {
+			continue
+		}
+		own := loopNodesOf(fi.Decl.Body)
+		if len(own) >= len(base) {
+			continue
+		}
+		// align the remaining own loops with the recorded ones (greedy, order preserving)
+		matched := map[int]int{} // own index -> recorded index
+		bi := 0
+		okAlign := true
+		for oi, n := range own {
+			fp := loopPrint(n)
+			for bi < len(base) && base[bi].Name != fp {
+				bi++
+			}
+			if bi >= len(base) {
+				okAlign = false
+				break
+			}
+			matched[oi] = bi
+			bi++
+		}
+		if !okAlign {
+			continue
+		}
+		used := map[int]bool{}
+		for _, b := range matched {
+			used[b] = true
+		}
+		var missing []int
+		for i := range base {
+			if !used[i] {
+				missing = append(missing, i)
+			}
+		}
+		// loops of new contract-less helpers called by the function, in call order
+		known := map[string]bool{}
+		for _, f := range recorded["$functions:"+ct.PkgPath] {
+			known[f.Name] = true
+		}
+		var cands []ast.Node
+		seenCallee := map[*FuncInfo]bool{}
+		info := fi.Pkg.TypesInfo
+		ast.Inspect(fi.Decl.Body, func(x ast.Node) bool {
+			call, ok := x.(*ast.CallExpr)
+			if !ok {
+				return true
+			}
+			var fn *types.Func
+			switch f := unparen(call.Fun).(type) {
+			case *ast.Ident:
+				fn, _ = info.Uses[f].(*types.Func)
+			case *ast.SelectorExpr:
+				fn, _ = info.Uses[f.Sel].(*types.Func)
+			}
+			if fn == nil || fn.Pkg() == nil || fn.Pkg().Path() != ct.PkgPath {
+				return true
+			}
+			cf := p.funcs[fullName(fn)]
+			if cf == nil || cf.Decl == nil || cf.Decl.Body == nil || seenCallee[cf] || p.contractFor(fn) != nil || p.isPure(fn) {
+				return true
+			}
+			keys := contractKeys(cf.Obj)
+			if known[keys[len(keys)-1]] {
+				return true
+			}
+			seenCallee[cf] = true
+			cands = append(cands, loopNodesOf(cf.Decl.Body)...)
+			return true
+		})
+		if len(cands) != len(missing) || len(missing) == 0 {
+			continue
+		}
+		ct.LoopRemap = map[ast.Node]int{}
+		for oi, n := range own {
+			ct.LoopRemap[n] = matched[oi] + 1
+		}
+		for i, n := range cands {
+			ct.LoopRemap[n] = missing[i] + 1
+			notes = append(notes, fmt.Sprintf("rename tolerance: %s.%s: loop %d of the contract is now in a new helper called by the function (%s)", ct.PkgName, ct.Key, missing[i]+1, loopPrint(n)))
+		}
+	}
+	sort.Strings(notes)
+	return notes
 }
 
 func writeBindings(verifDir, prop string, b map[string][]bindEntry) error {
